@@ -20,26 +20,40 @@ META = {
     "upper shear, S diagonal; also over any ordered field in closed form), resolution_from_affine, least "
     "squares: any minimiser of an exactly affine / exactly representable correspondence reproduces it (unique "
     "for >=3 non-collinear points), Poly2d evaluation composes with an input transform and with the output "
-    "de-normalisation, axis labels -> affine round trip, Bin1D bin<->interval and from_sample_bin.  The "
+    "de-normalisation, axis labels -> affine round trip, Bin1D bin<->interval and from_sample_bin.  Growth round "
+    "(Model/C20Glue.lean, Props/C20Glue.lean, Lemmas/C20f.lean): the model's executable least-squares instance (normal "
+    "equations by Cramer's rule) is PROVED to be a least-squares minimiser for any data, so affine_from_pts as the driver "
+    "runs it reproduces exact mappings with no hypothesis on the solver; Poly2d construction (exactly the (3,3,2)/(2,2,2) "
+    "tables), every call form of Poly2d.__call__ (scalars, equal arrays, Nx2 = columns transposed, scalar-vs-array accepted "
+    "only by the rotated branch, unequal arrays ValueError / TypeError by branch), with_input_transform through the array "
+    "form, Bin1D.__eq__ (== iff same intervals for every index), apply_affine (pointwise, any array shape, size mismatch "
+    "rejected), stack_xy/unstack_xy round trip, decompose_rws on ndarrays (Affine variant = ndarray variant on the linear "
+    "part; non-2x2 rejected), maybe_zero and clamp contracts.  The "
     "model is tied to /repo on every run by an exact differential correspondence (all doubles for the "
-    "split/int helpers, quotient-constructed dyadic operands elsewhere, exhaustive at tolerance edges) and "
-    "an independent Fraction oracle on arbitrary doubles.",
+    "split/int helpers, quotient-constructed dyadic operands elsewhere, exhaustive at tolerance edges; every public call "
+    "form and rejected argument shape of the glue) and an independent Fraction oracle on arbitrary doubles; fits are also "
+    "driven with sources and targets typed int / float32 / float64 / numpy ints (whole lists and mixed) through "
+    "affine_from_pts, Poly2d.fit and GCPMapping.approx / .p2w.",
     "note": "Trusted: Lean kernel + {propext, Classical.choice, Quot.sound}; IEEE rounding is not modelled "
     "(theorems are over exact rationals, doubles are sampled); float log2 is modelled by its exact value "
-    "(inputs < 2^48 in the harness); LAPACK lstsq/cholesky/inv are parameters (the executable instance "
-    "solves the normal equations exactly and is not proved to be a minimiser; real results are compared after "
+    "(inputs < 2^48 in the harness); LAPACK lstsq/cholesky/inv are parameters (the executable instance of lstsq is now "
+    "proved to be a minimiser; real results are compared after "
     "rounding to 2^-20 on dyadic inputs and by residual otherwise); sqrt enters only as a witness; norm_xy "
-    "(sqrt, mean) is not modelled, its contract (mean 0, mean distance sqrt 2, finite) is checked by the oracle.  "
+    "(sqrt, mean) has a field-generic model with theorems but no driver op, its contract (mean 0, mean distance sqrt 2, "
+    "finite) is checked by the oracle.  "
     "The model follows /repo after two repairs found by this check: Poly2d ignored off-diagonal input-transform "
     "terms below an absolute 1e-6 (e4d32c2) and norm_xy broke Poly2d.fit for point sets containing their "
     "centroid (1cb55fb); replays of both are in corpus/C20.  The strict 'minimal' bound of snap_grid excludes "
-    "the zero-width interval with tol = 0 (equality there, proved and exercised).",
-    "inventory_not_modelled": "odc/geo/math.py parts without a Lean mirror in Model/C20: apply_affine (numpy broadcast of "
-    "A*(x,y); pointwise meaning is Aff.apply), stack_xy / unstack_xy (container conversion), edge_index and quasi_random_r2 "
-    "(covered by other properties), norm_xy has a field-generic model (Lemmas/C20e, sqrt as witnesses) but no driver op, "
+    "the zero-width interval with tol = 0 (equality there, proved and exercised).  Comparisons of internal steps (the "
+    "private helpers _snap_edge_pos / _snap_edge, the design rows handed to LAPACK as multisets) are soft or skipped with "
+    "a note when the interception point is gone; only observable behaviour decides.",
+    "inventory_not_modelled": "odc/geo/math.py parts without a Lean mirror in Model/C20*: edge_index and quasi_random_r2 "
+    "(covered by other properties / float32 arithmetic), norm_xy has a field-generic model (Lemmas/C20e, sqrt as witnesses) but no driver op, "
     "Poly2d.fit end to end (dispatch, design rows, de-normalisation, cost and the fit theorems are modelled; LAPACK lstsq is a "
-    "parameter), Poly2d.__call__ array-shape routing (oracle only), maybe_zero / clamp are modelled without theorems, "
-    "Bin1D.__eq__, the ndarray variant of decompose_rws (same core as the Affine variant), get_scale_at_point (oracle only).",
+    "parameter), Poly2d.__call__ with arrays of more than one dimension (1-d and Nx2 are modelled), non-finite inputs of "
+    "snap_scale / snap_grid / snap_affine (split_float / maybe_int / is_almost_int do model them), get_scale_at_point (oracle only), "
+    "the existence of the normal-equation solution for non-collinear points (the minimiser theorem is conditional on the solver "
+    "returning, i.e. on a non-zero Gram determinant).",
     "technique": "Lean 4 proof over hand model + exhaustive/random differential correspondence with real code",
     "design_ref": "DESIGN.md §4 C20",
 }
@@ -537,11 +551,28 @@ def sec_snap_grid(R: Run, M):
                                     (2, 1, 1, None, TOL2), (2, 1, -1, None, TOL2), (0, 1, 1, 1, TOL2), (0, 1, 1, F(-1, 4), TOL2),
                                     (0, 1, 1, F(3, 2), TOL2), (0, 0, 1, 0, TOL2), (0, 0, -2, None, TOL2)]:
         one(F(x0), F(x1), F(res), None if off is None else F(off), tol, "edge-case")
-    for (x0, x1, res, tol) in [(0, 1, 0, TOL2), (0, 1, -1, TOL2), (2, 1, 1, TOL2), (0, 5, 2, TOL2), (F(-7, 2), F(1, 4), F(1, 2), TOL2)]:
-        R.corr(f"c20 edgepos {frac_s(x0)} {frac_s(x1)} {frac_s(res)} {frac_s(tol)}",
-               lambda: "{} {}".format(*(lambda t: (frac_s(t[0]), t[1]))(M._snap_edge_pos(float(x0), float(x1), float(res), float(tol)))))
-        R.corr(f"c20 edge {frac_s(x0)} {frac_s(x1)} {frac_s(res)} {frac_s(tol)}",
-               lambda: "{} {}".format(*(lambda t: (frac_s(t[0]), t[1]))(M._snap_edge(float(x0), float(x1), float(res), float(tol)))))
+    # the two private helpers behind snap_grid, when they exist under these names (a refactor may inline / rename them:
+    # then only the public snap_grid stream above applies)
+    edge_pos, edge_any = getattr(M, "_snap_edge_pos", None), getattr(M, "_snap_edge", None)
+    if edge_pos is None or edge_any is None:
+        R.notes.append("private helpers _snap_edge_pos / _snap_edge not found: their direct stream is skipped (snap_grid covers them)")
+    # (internal steps are not part of the property: a difference here is recorded as a note and the public snap_grid
+    # streams decide; it is never a violation by itself)
+    soft_lines, soft_real = [], []
+    for (x0, x1, res, tol) in [(0, 1, 0, TOL2), (0, 1, -1, TOL2), (2, 1, 1, TOL2), (0, 5, 2, TOL2), (F(-7, 2), F(1, 4), F(1, 2), TOL2),
+                               (F(3, 4), F(41, 4), F(1, 2), TOL2), (F(-9), F(-9), F(2), F(0)), (F(-5, 2), F(7, 2), F(-1, 4), TOL6)]:
+        if edge_pos is None or edge_any is None:
+            break
+        for nm, fn_ in (("edgepos", edge_pos), ("edge", edge_any)):
+            soft_lines.append(f"c20 {nm} {frac_s(x0)} {frac_s(x1)} {frac_s(res)} {frac_s(tol)}")
+            soft_real.append(guarded(lambda: "{} {}".format(*(lambda t: (frac_s(t[0]), t[1]))(fn_(float(x0), float(x1), float(res), float(tol))))))
+    if soft_lines:
+        model_out = run_driver("C20", soft_lines)
+        diff = [(l_, r_, m_) for l_, r_, m_ in zip(soft_lines, soft_real, model_out) if r_ != m_]
+        R.count("grid:private-helper-steps-compared", len(soft_lines))
+        if diff:
+            R.notes.append("private snap-edge helpers differ from the model's intermediate steps (not a violation; snap_grid decides): "
+                           + repr(diff[:3]))
     # random large, quotient construction x = q * |res|
     for _ in range(R.pick(4000, 40000)):
         res = F(rng.choice([-1, 1]) * rng.choice([1, 3, 5, 10, 25, 30, 1000, rng.randint(1, 1023)])) * F(2) ** rng.randint(-12, 6)
@@ -1133,6 +1164,158 @@ def sec_fit(R: Run, M, Affine):
     R.oracle(r == "ERR:ValueError", "poly2d-fit-accepts-two-points", {}, r, trivial=True)
 
 
+def sec_fit_types(R: Run, M, Affine):
+    """numeric-type dimension of the fits: the SAME exactly representable mapping with the point coordinates typed as python
+    int / float, numpy float64 / float32 / int64 / int32 / int16 (whole lists, and mixed per point), sources and targets
+    independently, through affine_from_pts, Poly2d.fit and the GCP entry points (GCPMapping(pix, wld).approx / .p2w, from XY
+    lists and from ndarrays).  The values are identical in every spelling (half-integer pixel centres, whole-number or
+    short dyadic world coordinates are exact in all of these types), so the exact mapping must be reproduced whatever the
+    type; affine_from_pts is also compared with the Lean model on the same line."""
+    from odc.geo import xy_
+    from odc.geo.gcp import GCPMapping
+    rng = R.rng
+    INT_T = {"int": int, "np.int64": np.int64, "np.int32": np.int32, "np.int16": np.int16}
+    FLT_T = {"float": float, "np.float64": np.float64, "np.float32": np.float32}
+
+    def typed(vals, integral: bool):
+        """one spelling of a list of exact values: (python objects, tag)"""
+        pool = dict(FLT_T)
+        if integral:
+            pool.update(INT_T)
+            if max(abs(v) for q in vals for v in q) >= 2**15:
+                del pool["np.int16"]
+        if rng.random() < 0.25:
+            names = [rng.choice(sorted(pool)) for _ in vals]
+            return [tuple(pool[nm](float(v) if nm in FLT_T else int(v)) for v in q) for q, nm in zip(vals, names)], "mixed"
+        nm = rng.choice(sorted(pool))
+        return [tuple(pool[nm](float(v) if nm in FLT_T else int(v)) for v in q) for q in vals], nm
+
+    for _ in range(R.pick(500, 5000)):
+        n = rng.randint(3, 9)
+        ij = set()
+        while len(ij) < n:
+            ij.add((rng.randint(-12, 12), rng.randint(-12, 12)))
+        ij = sorted(ij)
+        rng.shuffle(ij)
+        (x0, y0), (x1, y1) = ij[0], ij[1]
+        if all((px - x0) * (y1 - y0) == (py - y0) * (x1 - x0) for px, py in ij):
+            continue
+        centres = rng.random() < 0.6                 # pixel centres (k + 1/2) as sources
+        X = [(F(i) + F(1, 2), F(j) + F(1, 2)) for i, j in ij] if centres else [(F(i), F(j)) for i, j in ij]
+        whole = rng.random() < 0.6                   # whole-number targets (a ground-control table in whole metres)
+        if whole:
+            a, b, d, e = (F(2 * rng.randint(-6, 6)) if centres else F(rng.randint(-12, 12)) for _ in range(4))
+            c, f_ = F(rng.randint(-10**6, 10**6)), F(rng.randint(-10**6, 10**6))
+            if centres:
+                # odd multiples are fine too when the half-pixel terms cancel in the translation
+                a, b, d, e = a + rng.choice([0, 1]), b, d, e + rng.choice([0, 1])
+                c, f_ = c - (a + b) / 2 + F((a + b) % 2, 2) * 0, f_
+                c = F(rng.randint(-10**6, 10**6)) - (a + b) / 2
+                f_ = F(rng.randint(-10**6, 10**6)) - (d + e) / 2
+        else:
+            a, b, d, e = (F(rng.randint(-64, 64), 16) for _ in range(4))
+            c, f_ = F(rng.randint(-1000, 1000), 4), F(rng.randint(-1000, 1000), 4)
+        Av = [a, b, c, d, e, f_]
+        if a * e - b * d == 0:
+            continue
+        Y = [(a * x + b * y + c, d * x + e * y + f_) for x, y in X]
+        y_int = all(v.denominator == 1 for q in Y for v in q)
+        x_int = not centres
+        if not all(isx(v) and F(float(np.float32(float(v)))) == v for q in X + Y for v in q):
+            continue                                  # every spelling must carry the same values (float32 included)
+        Yt, ytag = typed(Y, y_int)
+        Xt, xtag = typed(X, x_int)
+        route = rng.choice(["affine_from_pts", "affine_from_pts", "GCPMapping.approx", "GCPMapping.approx-arrays", "GCPMapping.p2w"])
+        line = f"c20 fitaff {list_s(X, lambda q: frac_s(q[0]) + ';' + frac_s(q[1]))} {list_s(Y, lambda q: frac_s(q[0]) + ';' + frac_s(q[1]))}"
+        case = {"line": line, "route": route, "x_type": xtag, "y_type": ytag, "A": [float(v) for v in Av],
+                "X": repr(Xt), "Y": repr(Yt)}
+        res_l = []
+        cls = lambda t: "mixed" if t == "mixed" else "int-typed" if t in INT_T else "float-typed"
+        sig = f"fit-types|{route}|x={cls(xtag)}|y={cls(ytag)}"
+        R.count(f"fit-types:x={xtag}")
+        R.count(f"fit-types:y={ytag}")
+        if route == "affine_from_pts":
+            def f():
+                A = M.affine_from_pts([xy_(*q) for q in Xt], [xy_(*q) for q in Yt])
+                res_l.append(A)
+                return ";".join(frac_s(snap20(v)) for v in tuple(A)[:6])
+
+            R.corr(line, f, sig=sig)
+        elif route.startswith("GCPMapping.approx"):
+            def f():
+                if route.endswith("arrays") and xtag != "mixed" and ytag != "mixed":
+                    gm = GCPMapping(np.asarray(Xt), np.asarray(Yt), "epsg:3857")
+                else:
+                    gm = GCPMapping([xy_(*q) for q in Xt], [xy_(*q) for q in Yt], "epsg:3857")
+                A = gm.approx
+                res_l.append(A)
+                return ";".join(frac_s(snap20(v)) for v in tuple(A)[:6])
+
+            R.corr(line, f, sig=sig)
+        else:
+            try:
+                gm = GCPMapping([xy_(*q) for q in Xt], [xy_(*q) for q in Yt], "epsg:3857")
+                got = np.asarray(gm.p2w(np.asarray([[float(x), float(y)] for x, y in X])))
+                want = np.asarray([[float(u), float(v)] for u, v in Y])
+                sc = max(1.0, float(np.abs(want).max()))
+                err = float(np.abs(got - want).max()) / sc
+                tolr = 1e-4 if "float32" in (xtag, ytag) or "mixed" in (xtag, ytag) else 1e-7
+                R.oracle(err <= tolr, "poly2d-fit-does-not-reproduce-exact-mapping", case,
+                         f"GCPMapping(pix[{xtag}], wld[{ytag}]).p2w: max relative error {err:.3g} on an exactly affine table", sig=sig)
+            except Exception as ex:  # pylint: disable=broad-except
+                R.oracle(False, "poly2d-fit-raises", case, repr(ex), sig=sig)
+            continue
+        if res_l:
+            A = res_l[0]
+            ok = all(abs(F(v) - w) <= F(1, 10**8) * max(1, abs(w)) for v, w in zip(tuple(A)[:6], Av))
+            R.oracle(ok, "affine-fit-does-not-reproduce-exact-mapping", case,
+                     f"{route} with sources typed {xtag}, targets typed {ytag}: fitted {tuple(A)[:6]} for the exact mapping {[float(v) for v in Av]}",
+                     sig=sig)
+        else:
+            R.oracle(False, "affine-fit-raises-on-typed-points", case, f"{route} raised for sources typed {xtag}, targets typed {ytag}", sig=sig)
+
+    # Poly2d.fit with the correspondences as arrays of every dtype
+    from numpy.polynomial.polynomial import polyval2d
+    for _ in range(R.pick(250, 2500)):
+        n = rng.choice([3, 4, 5, 8, 9, 12, 20])
+        pts = set()
+        while len(pts) < n:
+            pts.add((rng.randint(-20, 20), rng.randint(-20, 20)))
+        pts = sorted(pts)
+        aa = np.asarray(pts, dtype="float64")
+        k = 3 if n >= 9 else 2
+        whole = rng.random() < 0.6
+        cc = np.zeros((k, k, 2))
+        for i in range(k):
+            for j in range(k):
+                if n == 3 and i + j > 1:
+                    continue
+                cc[i, j, :] = ([rng.randint(-4, 4), rng.randint(-4, 4)] if whole else
+                               [rng.randint(-16, 16) / 8 / (10 ** (i + j)), rng.randint(-16, 16) / 8 / (10 ** (i + j))])
+        bb = polyval2d(aa[:, 0], aa[:, 1], cc).T
+        x, y = aa.T
+        cols = [np.ones(n), y, y * y, x, x * y, x * y * y, x * x, x * x * y, x * x * y * y] if k == 3 else (
+            [np.ones(n), y, x, x * y] if n >= 4 else [np.ones(n), y, x])
+        sv = np.linalg.svd(np.stack(cols, axis=1), compute_uv=False)
+        if sv[-1] < 1e-6 * sv[0]:
+            continue
+        dta = rng.choice(["float64", "float32", "int64", "int32", "int16"])
+        dtb = rng.choice(["float64", "float32", "int64", "int32"] if whole and float(np.abs(bb).max()) < 2**23 else ["float64", "float64", "float32"])
+        if dtb == "float32" and not whole:
+            bb = bb.astype("float32").astype("float64")        # the targets the float32 spelling actually carries
+        case = {"pts": [list(p) for p in pts], "cc": cc.tolist(), "aa_dtype": dta, "bb_dtype": dtb}
+        try:
+            P = M.Poly2d.fit(aa.astype(dta), bb.astype(dtb))
+            got = P(aa)
+            err = float(np.abs(got - bb).max())
+            scale = max(1.0, float(np.abs(bb).max()))
+            tolr = 1e-4 if "float32" in (dta, dtb) else 1e-7
+            R.oracle(err <= tolr * scale, "poly2d-fit-does-not-reproduce-exact-mapping", case,
+                     f"Poly2d.fit(aa[{dta}], bb[{dtb}]): max error {err} (scale {scale})", sig=f"polyfit-types|a={dta}|b={dtb}")
+        except Exception as ex:  # pylint: disable=broad-except
+            R.oracle(False, "poly2d-fit-raises", case, f"{ex!r}", sig=f"polyfit-types|a={dta}|b={dtb}")
+
+
 def sec_bin(R: Run, M):
     rng = R.rng
 
@@ -1467,6 +1650,268 @@ def sec_poly_routes(R: Run, M, Affine):
             R.oracle(False, "poly2d-array-call-raises", case, repr(ex), sig="raises")
 
 
+def sec_glue(R: Run, M, Affine):
+    """the public glue modelled in Model/C20Glue.lean: Poly2d construction (shape assertion), every call form of
+    Poly2d.__call__ (scalars, equal arrays, scalar vs array, one-element vs longer array, unequal arrays, Nx2, Nx2 after
+    with_input_transform) on both normalisation branches, Bin1D.__eq__, apply_affine (1-d / 2-d / mismatched), stack_xy /
+    unstack_xy, decompose_rws on ndarrays of right and wrong shape, clamp / maybe_zero at their edges.  Dyadic operands:
+    every float operation is exact, results and exception kinds are compared with the Lean model; independent oracles
+    re-evaluate pointwise with Fractions."""
+    from odc.geo import xy_
+    rng = R.rng
+
+    def rnd_aff(kind):
+        if kind == "st":
+            return [F(rng.choice([-1, 1]) * rng.randint(1, 16), 8), F(0), F(rng.randint(-40, 40), 4),
+                    F(0), F(rng.choice([-1, 1]) * rng.randint(1, 16), 8), F(rng.randint(-40, 40), 4)]
+        if kind == "shear":      # exactly one off-diagonal term
+            o = [F(rng.choice([-1, 1]) * rng.randint(1, 16), 8), F(0)]
+            rng.shuffle(o)
+            return [F(rng.randint(-16, 16), 8), o[0], F(rng.randint(-40, 40), 4), o[1], F(rng.randint(-16, 16), 8), F(rng.randint(-40, 40), 4)]
+        return [F(rng.randint(-16, 16), 8), F(rng.choice([-1, 1]) * rng.randint(1, 16), 8), F(rng.randint(-40, 40), 4),
+                F(rng.choice([-1, 1]) * rng.randint(1, 16), 8), F(rng.randint(-16, 16), 8), F(rng.randint(-40, 40), 4)]
+
+    def exact_pt(cc, k, A, x, y):
+        ok, full, short = _aff_apply_exact(A, x, y)
+        return ok and _horner_exact(cc, k, *full) and _horner_exact(cc, k, *short)
+
+    def value(cc, k, A, x, y):
+        xs, ys = A[0] * x + A[1] * y + A[2], A[3] * x + A[4] * y + A[5]
+        return tuple(sum(cc[i * k + j][c] * xs ** i * ys ** j for i in range(k) for j in range(k)) for c in (0, 1))
+
+    pt_s = lambda q: frac_s(q[0]) + ";" + frac_s(q[1])
+    # ---- Poly2d(cc, A): accepted / rejected coefficient-table shapes
+    for shape in [(3, 3, 2), (2, 2, 2), (2, 2), (4, 4, 2), (2, 3, 2), (3, 2, 2), (2, 2, 3), (3, 3, 3), (8,), (1, 1, 2), (2, 2, 2, 1), (0, 0, 2)]:
+        for _ in range(R.pick(3, 12)):
+            n = int(np.prod(shape))
+            vals = [F(rng.randint(-8, 8), 4) for _ in range(n)]
+            arr = np.asarray([float(v) for v in vals], dtype="float64").reshape(shape)
+            cc = [(vals[2 * i], vals[2 * i + 1]) for i in range(n // 2)] if shape[-1] == 2 else []
+            A = rnd_aff(rng.choice(["st", "rot"]))
+            x, y = F(rng.randint(-16, 16), 4), F(rng.randint(-16, 16), 4)
+            if shape in [(3, 3, 2), (2, 2, 2)] and not exact_pt(cc, shape[0], A, x, y):
+                continue
+
+            def fm():
+                P = M.Poly2d(arr, Affine(*[float(v) for v in A]))
+                o = P(float(x), float(y))
+                return f"{frac_s(float(o[0]))};{frac_s(float(o[1]))}"
+
+            o_mk = R.corr(f"c20 polymk {list_s(list(shape), str)} {list_s(cc, pt_s)} {aff_in(A)} {frac_s(x)} {frac_s(y)}", fm,
+                          sig=f"polymk|{'ok' if shape in [(3, 3, 2), (2, 2, 2)] else 'bad-shape'}")
+            if shape not in [(3, 3, 2), (2, 2, 2)]:
+                # documented contract of the constructor: bilinear (2,2,2) and biquadratic (3,3,2) tables only
+                R.oracle(o_mk.startswith("ERR:"), "poly2d-accepts-unsupported-coefficient-table", {"shape": list(shape)},
+                         f"Poly2d(cc of shape {shape}, A) was accepted and evaluated to {o_mk}", sig="polymk-reject")
+    # ---- call forms
+    forms = ["ss", "aa", "aa", "sa", "as", "1a", "a1", "ab", "a0", "nx2", "nx2", "nx2with"]
+    for _ in range(R.pick(1500, 15000)):
+        k = rng.choice([2, 2, 3])
+        cc = [(F(rng.randint(-8, 8), 4), F(rng.randint(-8, 8), 4)) for _ in range(k * k)]
+        kind = rng.choice(["st", "rot", "shear"])
+        A = rnd_aff(kind)
+        form = rng.choice(forms)
+        n = rng.randint(2, 5)
+        xs = [F(rng.randint(-16, 16), 4) for _ in range(n)]
+        ys = [F(rng.randint(-16, 16), 4) for _ in range(n)]
+        arr = np.asarray([[float(c[0]), float(c[1])] for c in cc], dtype="float64").reshape(k, k, 2)
+        P = M.Poly2d(arr, Affine(*[float(v) for v in A]))
+        head = f"{k} {list_s(cc, pt_s)} {aff_in(A)}"
+        if form in ("nx2", "nx2with"):
+            A2 = rnd_aff(rng.choice(["st", "rot", "shear"])) if form == "nx2with" else None
+            if A2 is None:
+                Aeff, okm = A, True
+            else:
+                okm, Aeff = _aff_mul_exact(A, A2)
+            pts = list(zip(xs, ys))
+            if not (okm and all(exact_pt(cc, k, Aeff, x, y) for x, y in pts)):
+                R.count("glue:skipped-inexact")
+                continue
+            if A2 is not None and not all(_aff_apply_exact(A2, x, y)[0] and exact_pt(cc, k, A, *_aff_apply_exact(A2, x, y)[1]) for x, y in pts):
+                R.count("glue:skipped-inexact")
+                continue
+            Pobj = P if A2 is None else P.with_input_transform(Affine(*[float(v) for v in A2]))
+            got = []
+
+            def fn():
+                o = np.asarray(Pobj(np.asarray([[float(x), float(y)] for x, y in pts])))
+                got.append(o)
+                if o.shape != (len(pts), 2):
+                    return f"SHAPE:{o.shape}"
+                return "[" + ",".join(f"{frac_s(float(r[0]))};{frac_s(float(r[1]))}" for r in o) + "]"
+
+            R.corr(f"c20 polycalln {head} {'N' if A2 is None else aff_in(A2)} {list_s(pts, pt_s)}", fn, sig=f"polycalln|{form}|{kind}")
+            if got and got[0].shape == (len(pts), 2):
+                want = [value(cc, k, Aeff, x, y) for x, y in pts]
+                ok = all((F(float(o[0])), F(float(o[1]))) == w for o, w in zip(got[0], want))
+                R.oracle(ok, "poly2d-array-call-differs-from-pointwise-evaluation",
+                         {"k": k, "cc": list_s(cc, pt_s), "A": aff_in(A), "A2": None if A2 is None else aff_in(A2), "pts": list_s(pts, pt_s)},
+                         f"P(Nx2) = {got[0].tolist()}, pointwise exact {[tuple(map(float, w)) for w in want]}", sig=f"nx2-pointwise|{form}")
+                if A2 is not None:
+                    tp = [_aff_apply_exact(A2, x, y)[1] for x, y in pts]
+                    via = np.asarray(P(np.asarray([[float(u), float(v)] for u, v in tp])))
+                    R.oracle(np.array_equal(via, got[0]), "poly2d-input-transform-composition",
+                             {"k": k, "cc": list_s(cc, pt_s), "A": aff_in(A), "A2": aff_in(A2), "pts": list_s(pts, pt_s)},
+                             f"p.with_input_transform(A2)(pts) = {got[0].tolist()} but p(A2*pts) = {via.tolist()}", sig="nx2-with-composition")
+            continue
+        if form == "ss":
+            ax, ay, tx, ty = float(xs[0]), float(ys[0]), f"s:{frac_s(xs[0])}", f"s:{frac_s(ys[0])}"
+            pairs = [(xs[0], ys[0])]
+        elif form == "aa":
+            ax, ay = np.asarray([float(v) for v in xs]), np.asarray([float(v) for v in ys])
+            tx, ty = "a:" + list_s(xs, frac_s), "a:" + list_s(ys, frac_s)
+            pairs = list(zip(xs, ys))
+        elif form == "sa":
+            ax, ay, tx, ty = float(xs[0]), np.asarray([float(v) for v in ys]), f"s:{frac_s(xs[0])}", "a:" + list_s(ys, frac_s)
+            pairs = [(xs[0], y) for y in ys]
+        elif form == "as":
+            ax, ay, tx, ty = np.asarray([float(v) for v in xs]), float(ys[0]), "a:" + list_s(xs, frac_s), f"s:{frac_s(ys[0])}"
+            pairs = [(x, ys[0]) for x in xs]
+        elif form == "1a":
+            ax, ay = np.asarray([float(xs[0])]), np.asarray([float(v) for v in ys])
+            tx, ty = "a:" + list_s(xs[:1], frac_s), "a:" + list_s(ys, frac_s)
+            pairs = [(xs[0], y) for y in ys]
+        elif form == "a1":
+            ax, ay = np.asarray([float(v) for v in xs]), np.asarray([float(ys[0])])
+            tx, ty = "a:" + list_s(xs, frac_s), "a:" + list_s(ys[:1], frac_s)
+            pairs = [(x, ys[0]) for x in xs]
+        elif form == "a0":
+            ax, ay, tx, ty, pairs = np.asarray([], dtype="float64"), np.asarray([], dtype="float64"), "a:[]", "a:[]", []
+        else:   # unequal lengths, neither of length one
+            ys2 = ys + [F(rng.randint(-16, 16), 4)]
+            ax, ay = np.asarray([float(v) for v in xs]), np.asarray([float(v) for v in ys2])
+            tx, ty = "a:" + list_s(xs, frac_s), "a:" + list_s(ys2, frac_s)
+            pairs = []
+        if not all(exact_pt(cc, k, A, x, y) for x, y in pairs):
+            R.count("glue:skipped-inexact")
+            continue
+        got = []
+
+        def fc():
+            o = np.asarray(P(ax, ay))
+            got.append(o)
+            if o.ndim == 1:
+                o = o.reshape(2, 1)
+            return "[" + ",".join(frac_s(float(v)) for v in o[0]) + "] [" + ",".join(frac_s(float(v)) for v in o[1]) + "]"
+
+        R.corr(f"c20 polycall2 {head} {tx} {ty}", fc, sig=f"polycall2|{form}|{'shortcut' if A[1] == 0 and A[3] == 0 else 'general'}")
+        if got and pairs:
+            o = got[0].reshape(2, -1)
+            want = [value(cc, k, A, x, y) for x, y in pairs]
+            ok = o.shape[1] == len(pairs) and all((F(float(o[0, i])), F(float(o[1, i]))) == want[i] for i in range(len(pairs)))
+            R.oracle(ok, "poly2d-array-call-differs-from-pointwise-evaluation",
+                     {"k": k, "cc": list_s(cc, pt_s), "A": aff_in(A), "x": tx, "y": ty},
+                     f"P(x, y) = {got[0].tolist()}, pointwise exact {[tuple(map(float, w)) for w in want]}", sig=f"call2-pointwise|{form}")
+    # ---- Bin1D.__eq__
+    for _ in range(R.pick(400, 4000)):
+        sz, o, d = F(rng.randint(1, 64), 4), F(rng.randint(-64, 64), 4), rng.choice([1, -1])
+        r = rng.random()
+        sz2, o2, d2 = sz, o, d
+        if r < 0.2:
+            sz2 = sz + F(rng.choice([-1, 1]), 4)
+        elif r < 0.4:
+            o2 = o + F(rng.choice([-1, 1, 4 * sz]), 4)
+        elif r < 0.6:
+            d2 = -d
+        elif r < 0.7:
+            o2, d2 = o + sz, -d
+        if sz2 <= 0:
+            continue
+        a_, b_ = M.Bin1D(float(sz), float(o), d), M.Bin1D(float(sz2), float(o2), d2)
+        eq = R.corr(f"c20 bineq {frac_s(sz)} {frac_s(o)} {d} {frac_s(sz2)} {frac_s(o2)} {d2}", lambda: bool_s(a_ == b_),
+                    sig=f"bineq|{'same' if (sz, o, d) == (sz2, o2, d2) else 'different'}")
+        same = all(a_[i] == b_[i] for i in range(-3, 4))
+        R.oracle((eq == "T") == same and (a_ != b_) == (not same), "bin1d-eq-differs-from-same-intervals",
+                 {"a": [float(sz), float(o), d], "b": [float(sz2), float(o2), d2]},
+                 f"a == b is {eq}, a != b is {a_ != b_}, intervals -3..3 all equal: {same}", sig="bineq")
+    R.oracle(not (M.Bin1D(1.0) == "x") and not (M.Bin1D(1.0) == (1.0, 0.0, 1)), "bin1d-eq-differs-from-same-intervals", {"other": "non-Bin1D"},
+             "Bin1D compares equal to a non-Bin1D value", sig="bineq-other", trivial=True)
+    # ---- apply_affine / stack_xy / unstack_xy
+    for _ in range(R.pick(300, 3000)):
+        A = rnd_aff(rng.choice(["st", "rot", "shear"]))
+        shape = rng.choice([(1,), (4,), (2, 3), (3, 1), (0,), (2, 2, 2)])
+        n = int(np.prod(shape))
+        xs = [F(rng.randint(-64, 64), 4) for _ in range(n)]
+        mism = rng.random() < 0.15
+        ys = [F(rng.randint(-64, 64), 4) for _ in range(n + (1 if mism else 0))]
+        if not mism and not all(_aff_apply_exact(A, x, y)[0] for x, y in zip(xs, ys)):
+            continue
+        xa = np.asarray([float(v) for v in xs]).reshape(shape)
+        ya = np.asarray([float(v) for v in ys]) if mism else np.asarray([float(v) for v in ys]).reshape(shape)
+        got = []
+
+        def fa():
+            ox, oy = M.apply_affine(Affine(*[float(v) for v in A]), xa, ya)
+            got.append((ox, oy))
+            if ox.shape != tuple(shape) or oy.shape != tuple(shape):
+                return f"SHAPE:{ox.shape},{oy.shape}"
+            return list_s([float(v) for v in ox.ravel()], frac_s) + " " + list_s([float(v) for v in oy.ravel()], frac_s)
+
+        R.corr(f"c20 applyaff {aff_in(A)} {list_s(xs, frac_s)} {list_s(ys, frac_s)}", fa, sig=f"applyaff|{'mismatch' if mism else 'ndim' + str(len(shape))}")
+        if got:
+            ox, oy = got[0]
+            want = [(A[0] * x + A[1] * y + A[2], A[3] * x + A[4] * y + A[5]) for x, y in zip(xs, ys)]
+            ok = ox.shape == tuple(shape) and all((F(float(u)), F(float(v))) == w for u, v, w in zip(ox.ravel(), oy.ravel(), want))
+            R.oracle(ok, "apply-affine-differs-from-pointwise", {"A": aff_in(A), "xs": list_s(xs, frac_s), "ys": list_s(ys, frac_s), "shape": list(shape)},
+                     f"apply_affine = {ox.tolist()}, {oy.tolist()}", sig="applyaff")
+    for _ in range(R.pick(100, 1000)):
+        n, m = rng.randint(0, 5), rng.choice([2, 2, 2, 3, 1])
+        rows = [[F(rng.randint(-64, 64), 4) for _ in range(m)] for _ in range(n)]
+        if n == 0 and m != 2:
+            continue
+        arr = np.asarray([[float(v) for v in r] for r in rows], dtype="float64").reshape(n, m)
+        R.corr(f"c20 unstack {list_s(rows, lambda r: ';'.join(frac_s(v) for v in r))}",
+               lambda: list_s([(p.x, p.y) for p in M.unstack_xy(arr)], lambda q: frac_s(float(q[0])) + ";" + frac_s(float(q[1]))),
+               sig=f"unstack|cols{m}")
+        if m == 2 and n > 0:
+            pts = [(r[0], r[1]) for r in rows]
+            R.corr(f"c20 stack {list_s(pts, pt_s)}",
+                   lambda: list_s(M.stack_xy([xy_(float(a), float(b)) for a, b in pts]).tolist(), lambda r: ";".join(frac_s(float(v)) for v in r)),
+                   sig="stack")
+    for arr in (np.zeros((2,)), np.zeros((2, 2, 2))):
+        r = guarded(lambda: str(M.unstack_xy(arr)))
+        R.oracle(r == "ERR:AssertionError", "unstack-xy-accepts-wrong-ndim", {"shape": list(arr.shape)}, r, trivial=True)
+    # ---- decompose_rws on ndarrays
+    for _ in range(R.pick(200, 2000)):
+        rot = rng.choice(ROT90)
+        u11 = rng.choice([-1, 1]) * F(2) ** rng.randint(-6, 6)
+        u22 = rng.choice([-1, 1]) * F(2) ** rng.randint(-6, 6)
+        u12 = F(rng.randint(-64, 64), 16)
+        a, b = rot[0] * u11, rot[0] * u12 + rot[1] * u22
+        d, e = rot[2] * u11, rot[2] * u12 + rot[3] * u22
+        if not all(isx(v) for v in (a, b, d, e)):
+            continue
+        bad = rng.random() < 0.2
+        rows = [[a, b], [d, e]]
+        if bad:
+            rows = rng.choice([[[a, b, F(0)], [d, e, F(0)]], [[a, b]], [[a, b], [d, e], [F(0), F(1)]], [[a], [d]]])
+        arr = np.asarray([[float(v) for v in r] for r in rows], dtype="float64")
+
+        def fr():
+            Rm, W, S = M.decompose_rws(arr)
+            return " ".join(";".join(frac_s(float(v)) for v in (m_[0, 0], m_[0, 1], 0.0, m_[1, 0], m_[1, 1], 0.0)) for m_ in (Rm, W, S))
+
+        o_r = R.corr(f"c20 rwsnd {list_s(rows, lambda r: ';'.join(frac_s(v) for v in r))} {frac_s(abs(u11))} {frac_s(abs(u22))}", fr,
+                     sig=f"rwsnd|{'bad-shape' if bad else 'rot90'}")
+        if bad:
+            R.oracle(o_r == "ERR:AssertionError", "decompose-rws-accepts-non-2x2", {"shape": list(arr.shape)},
+                     f"decompose_rws(array of shape {arr.shape}) did not fail its shape assertion: {o_r}", sig="rwsnd-reject")
+    # ---- clamp / maybe_zero edges (exact for every double)
+    for _ in range(R.pick(300, 3000)):
+        lo, up = sorted(F(rng.randint(-40, 40), 4) for _ in range(2))
+        if rng.random() < 0.1:
+            lo, up = up + F(1, 4), lo
+        x = rng.choice([lo, up, lo - F(1, 4), up + F(1, 4), (lo + up) / 2, F(rng.randint(-60, 60), 4)])
+        got = R.corr(f"c20 clamp {frac_s(x)} {frac_s(lo)} {frac_s(up)}", lambda: frac_s(M.clamp(float(x), float(lo), float(up))), sig="clamp|edges")
+        if lo <= up and not got.startswith("ERR"):
+            R.oracle(F(got) == min(max(x, lo), up), "clamp-contract", {"x": frac_s(x), "lo": frac_s(lo), "up": frac_s(up)}, got, sig="clamp")
+        tol = rng.choice([TOL6, F(1, 4), F(0), F(-1)])
+        z = rng.choice([tol, -tol, tol / 2, F(0), F(float(tol) * 0.999999), F(rng.randint(-8, 8), 8)])
+        if isx(z):
+            got = R.corr(f"c20 mzero {frac_s(z)} {frac_s(tol)}", lambda: frac_s(M.maybe_zero(float(z), float(tol))), sig="mzero|edges")
+            R.oracle(F(got) == (0 if abs(z) < tol else z), "maybe-zero-contract", {"x": frac_s(z), "tol": frac_s(tol)}, got, sig="mzero")
+
+
 def sec_growth(R: Run, M, Affine):
     """split_translation; Poly2d.fit dispatch and design matrices (norm_xy and lstsq substituted from the harness so that the
     rows LAPACK receives are observable and exact)"""
@@ -1493,7 +1938,7 @@ def sec_growth(R: Run, M, Affine):
                   and F(w.x).denominator == 1 and F(w.y).denominator == 1)
             R.oracle(ok, "split-translation-contract", {"x": frac_s(x), "y": frac_s(y)}, f"{w} {p}", sig="splittr")
     # Poly2d.fit: which family for N points, and the design-matrix rows
-    orig_norm, orig_lstsq = M.norm_xy, M.np.linalg.lstsq
+    orig_norm, orig_lstsq = M.norm_xy, np.linalg.lstsq
     for N in list(range(0, 13)) + [16, 20, 30]:
         for rep in range(R.pick(2, 10)):
             pts = set()
@@ -1508,31 +1953,48 @@ def sec_growth(R: Run, M, Affine):
             def fake_norm(p, out=None):
                 return np.array(p, dtype="float64", copy=True), Affine.identity()
 
+            hook = {"norm": 0}
+
+            def fake_norm2(p, out=None):
+                hook["norm"] += 1
+                return fake_norm(p, out)
+
             def spy(AA, B, rcond=None):
                 seen.append(np.array(AA, copy=True))
                 return orig_lstsq(AA, B, rcond=rcond)
 
             def fk():
-                M.norm_xy = fake_norm
-                M.np.linalg.lstsq = spy
+                M.norm_xy = fake_norm2
+                np.linalg.lstsq = spy
                 try:
                     P = M.Poly2d.fit(aa, bb)
                 finally:
                     M.norm_xy = orig_norm
-                    M.np.linalg.lstsq = orig_lstsq
+                    np.linalg.lstsq = orig_lstsq
+                if not seen or hook["norm"] != 2:
+                    return "HOOK-BYPASSED"
                 AA = seen[-1]
-                k = P._cc.shape[0]
+                cc_ = getattr(P, "_cc", None)
+                k = cc_.shape[0] if cc_ is not None else (3 if AA.shape[1] == 9 else 2)
                 name = {3: "affine", 4: "bilinear", 9: "biquadratic"}.get(AA.shape[1], f"cols{AA.shape[1]}")
                 return f"{name} {AA.shape[1]} {k}"
 
-            R.corr(f"c20 fitkind {N}", fk, sig=f"fitkind|{min(N, 10)}")
+            o_fk = guarded(fk)
+            if o_fk == "HOOK-BYPASSED":
+                # the fit no longer goes through math.norm_xy / numpy.linalg.lstsq as module-level names: the design rows
+                # are not observable this way; the behavioural fit oracles (sec_fit, sec_fit_types) still apply
+                if "fitkind stream skipped: Poly2d.fit bypasses the norm_xy / lstsq interception points" not in R.notes:
+                    R.notes.append("fitkind stream skipped: Poly2d.fit bypasses the norm_xy / lstsq interception points")
+                R.count("fitkind:hook-bypassed")
+                continue
+            R.corr(f"c20 fitkind {N}", lambda: o_fk, sig=f"fitkind|{min(N, 10)}")
             if seen and seen[-1].shape[0] == N:
                 AA = seen[-1]
                 for i in rng.sample(range(N), min(N, 3)):
                     x, y = pts[i]
-                    R.corr(f"c20 design {N} {frac_s(x)} {frac_s(y)}", lambda: list_s([float(v) for v in AA[i]], frac_s),
+                    R.corr(f"c20 designs {N} {frac_s(x)} {frac_s(y)}", lambda: list_s(sorted(float(v) for v in AA[i]), frac_s),
                            sig=f"design|{AA.shape[1]}")
-    assert M.norm_xy is orig_norm and M.np.linalg.lstsq is orig_lstsq
+    assert M.norm_xy is orig_norm and np.linalg.lstsq is orig_lstsq
 
 
 def run(R: Run):
@@ -1545,9 +2007,11 @@ def run(R: Run):
     sec_affine(R, M, Affine)
     sec_rws(R, M, Affine)
     sec_fit(R, M, Affine)
+    sec_fit_types(R, M, Affine)
     sec_bin(R, M)
     sec_poly(R, M, Affine)
     sec_poly_routes(R, M, Affine)
+    sec_glue(R, M, Affine)
     sec_growth(R, M, Affine)
     R.exhaustive = False
 
